@@ -210,6 +210,9 @@ def frag_intra_methods(repo):
         env[f"self.{k}"] = v
         env[f"self.__{k}"] = v
     out = []
+    # is_taxable: both `return self.crypto_fee > ZERO` (grid comparison, the repair of finding F8) and `return self.fiat_fee > ZERO`
+    # (13-decimal comparison of the fiat value, the rule before it) are translated by the typed comparison of expr.py; the
+    # positive theorems of C03/C07/C15 go through Proofs/TransferFee.v code_intra_taxable_iff_fee, which only holds for the former
     out.append("Definition intra_is_taxable (t : intratx) : bool := " + _method(cls, "is_taxable", env, "bool") + ".")
     out.append("Definition intra_is_earning (t : intratx) : bool := " + _method(cls, "is_earning", env, "bool") + ".")
     out.append("Definition intra_crypto_balance_change (t : intratx) : Z := " + _method(cls, "crypto_balance_change", env, "grid") + ".")
